@@ -227,6 +227,19 @@ def cases(ctx, deep=False):
             s = G.mutate(s, rng)
         for pos in {0, rng.randint(-1, len(s) + 1)}:
             out.append(('tern', s, pos, True))
+    # ternary: chained and nested conditionals, a blank or not in every gap (a later attempt may have to start inside the
+    # text an earlier, failed attempt consumed)
+    shapes = ['a?b?c:d:e', 'a?b:c?d:e', 'a?b?c?d:e:f:g', '(a?b:c)?d:e', 'a?(b?c:d):e', 'a?b?c:d:e?f:g']
+    for si, shape in enumerate(shapes):
+        gaps = len(shape) - 1
+        masks = range(1 << gaps) if (si < 2 or not quick) and gaps <= 8 else [rng.getrandbits(gaps) for _ in range(80 if quick else 600)]
+        for mask in masks:
+            body = ''.join(ch + (' ' if i < gaps and mask >> i & 1 else '') for i, ch in enumerate(shape))
+            pre, suf = (' ', ' ') if si < 2 else (rng.choice(['', ' ', '=', '(', ';']), rng.choice(['', ' ', ';', ')', ',']))
+            s = pre + body + suf
+            out.append(('tern', s, 0, True))
+            if mask % 7 == 0:
+                out.append(('tern', s, rng.randint(0, len(s)), True))
     # peep: every rule of a and b planted, plus damage; search=False as the pass calls it
     reps = 3 if quick else 25
     for name, table in (('peepA', PeepPass.regexes_to_replace), ('peepB', PeepPass.delimited_regexes_to_replace)):
